@@ -173,6 +173,18 @@ impl<'a> Obs<'a> {
     }
 }
 
+/// run `f` with an observer that records nothing (fuzz targets, replays)
+pub fn with_sink_obs<R>(prop: &'static str, f: impl FnOnce(&mut Obs) -> R) -> R {
+    thread_local! {
+        static KNOWN: Known = Known::load();
+    }
+    KNOWN.with(|k| {
+        let stats = RefCell::new(Stats::default());
+        let mut obs = Obs { prop, known: k, stats: &stats, counting: false, want_sample: false };
+        f(&mut obs)
+    })
+}
+
 pub struct Failure {
     pub sub: String,
     pub reason: String,
